@@ -598,5 +598,5 @@ func TestC09(t *testing.T) {
 			t.Fatalf("%s", f.Msg)
 		}
 	}
-	ev.Rapid(t, rec, "sessions", rec.Scale(2500, 150000), genCase, func(c Case) *ev.Failure { return runRecorded("sessions", c) })
+	ev.Rapid(t, rec, "sessions", rec.Scale(2500, 1500000), genCase, func(c Case) *ev.Failure { return runRecorded("sessions", c) })
 }
